@@ -30,7 +30,7 @@ META = {
     'components_stub': ['multiprocessing Queue / Event / Process, os.kill, time() (simulated)', 'player behaviours (scripted)'],
     'budgets': {'quick': {'seconds': 40}, 'thorough': {'seconds': 600}},
     'required_probes': {'thorough': ['late_answer_after_give_up', 'late_answer_in_time', 'worker_killed_on_timeout', 'worker_died', 'recycled', 'idle_worker_killed',
-                                     'reader_lock_orphaned', 'mode_equivalence_checked', 'keep_results']},
+                                     'killed_inside_queue_get', 'mode_equivalence_checked', 'keep_results']},
 }
 
 
